@@ -513,3 +513,77 @@ class Verifier(Executor):
                 if isinstance(v, Arr) and p not in con.modifies:
                     same = s.heap[v.obj.id] is self.entry.heap[v.obj.id]
                     self.oblige(s, "frame", p, True if same else (s.heap[v.obj.id] == self.entry.heap[v.obj.id]), tags={"C13"}, line=line)
+
+    # ------------------------------------------------------------------ counter-models (unroll mode only: paths from entry, no havoc)
+    def oblige(self, st, kind, label, goal, tags=None, line=None):
+        ob = super().oblige(st, kind, label, goal, tags=tags, line=line)
+        if self.unroll and ob.status == "failed" and getattr(self, "entry", None) is not None:
+            g = truth(goal)
+            if st.guards:
+                g = b_implies(b_and(*st.guards), g)
+            ob.model = self.small_model(st, g)
+        return ob
+
+    def input_cells(self):
+        cells = []
+        e = self.entry
+        for src in (e.env, e.ghost_env):
+            for name, v in src.items():
+                if isinstance(v, Arr) and all(isinstance(s, int) for s in v.obj.shape):
+                    import itertools as _it
+                    for ix in _it.product(*[range(s) for s in v.obj.shape]):
+                        cells.append(z3.Select(e.heap[v.obj.id], *[z3.IntVal(i) for i in ix]))
+                elif is_sym(v) and z3.is_int(v):
+                    cells.append(v)
+        return [c for c in cells if z3.is_int(c)]
+
+    def small_model(self, st, goal):
+        cells = self.input_cells()
+        for bound in (3, 16, 1000, None):
+            s = z3.Solver()
+            s.set("timeout", 10000)
+            for f in self.axioms + st.pc:
+                s.add(f)
+            s.add(z3.Not(zbool(goal)))
+            if bound is not None:
+                for c in cells:
+                    s.add(c >= -bound, c <= bound)
+            if s.check() == z3.sat:
+                return self.extract_inputs(s.model())
+        return None
+
+    def extract_inputs(self, model):
+        import itertools as _it
+        e = self.entry
+        out = {"params": {}, "ghost": {}}
+
+        def val(x):
+            r = model.eval(x, model_completion=True)
+            if z3.is_int_value(r):
+                return r.as_long()
+            if z3.is_true(r):
+                return True
+            if z3.is_false(r):
+                return False
+            return str(r)
+
+        for key, src in (("params", e.env), ("ghost", e.ghost_env)):
+            for name, v in src.items():
+                if isinstance(v, Arr):
+                    shape = v.obj.shape
+                    if not all(isinstance(s, int) for s in shape):
+                        continue
+                    import numpy as _np
+                    a = _np.zeros(shape, dtype=object)
+                    for ix in _it.product(*[range(s) for s in shape]):
+                        a[ix] = val(z3.Select(e.heap[v.obj.id], *[z3.IntVal(i) for i in ix]))
+                    out[key][name] = {"array": a.tolist(), "dtype": v.obj.dtype, "shape": list(shape)}
+                elif isinstance(v, ListObj):
+                    n, t = e.heap[v.id]
+                    n = val(zint(n))
+                    out[key][name] = {"list": [val(z3.Select(t, z3.IntVal(i))) for i in range(n)]}
+                elif is_sym(v):
+                    out[key][name] = val(v)
+                elif isinstance(v, (int, bool)) or v is None:
+                    out[key][name] = v
+        return out
